@@ -178,7 +178,10 @@ SCHEMES = [b"coap", b"coaps", b"coap+tcp", b"coaps+tcp", b"http", b"https", b"co
 HOSTS = [b"h", b"example.com", b"192.0.2.1", b"192.0.2.2", b"[::1]", b"[2001:db8::1]", b"[fe80::1%25eth0]", b"[]", b"[::1", b"", b"EXAMPLE.Com",
          b"a%41b", b"?", b"[?]", b"h%zz", b"%2Fsock", b"%2fs"]
 PORTS = [b"", b"", b"", b":", b":0", b":1", b":80", b":443", b":5683", b":5684", b":65535", b":65536", b":99999", b":0005683", b":12a", b":-1",
-         b":4294967297"]
+         b":4294967297",
+         # digits following a value that is already at / next to the 16-bit limit (the accumulation loop's bound)
+         b":655350", b":655351", b":655359", b":6553500", b":65534", b":655340", b":6553", b":65530", b":065535", b":0655350", b":655360",
+         b":65535a", b":100000", b":429496", b":18446744073709551617"]
 
 
 def ruri(rng):
